@@ -19,7 +19,7 @@ import traceback
 VERIF = os.path.dirname(os.path.dirname(os.path.abspath(__file__)))
 LEAN = os.path.join(VERIF, "lean")
 REPO = os.environ.get("AFKAK_REPO", "/repo")
-MODEL_BIN = os.path.join(LEAN, ".lake", "build", "bin", "afkak_model")
+BIN_DIR = os.path.join(LEAN, ".lake", "build", "bin")
 ALLOWED_AXIOMS = {"propext", "Classical.choice", "Quot.sound"}
 FORBIDDEN = re.compile(
     r"\bsorry\b|\badmit\b|^\s*axiom\s|\bnative_decide\b|\bbv_decide\b|implemented_by|\bunsafe\s|maxHeartbeats\s+0\b",
@@ -117,10 +117,11 @@ def audit(pid, obligations):
 
 def run_model(component, lines, timeout=1200):
     """Pipe request lines to the compiled model; return one list of answer lines per request."""
-    if not os.path.exists(MODEL_BIN):
-        raise Undecided("model driver not built")
+    exe = os.path.join(BIN_DIR, "model_" + component)
+    if not os.path.exists(exe):
+        raise Undecided("model driver %s not built" % exe)
     inp = "\n".join(lines) + "\n"
-    p = subprocess.run([MODEL_BIN, component], input=inp, stdout=subprocess.PIPE, stderr=subprocess.PIPE, text=True, timeout=timeout)
+    p = subprocess.run([exe], input=inp, stdout=subprocess.PIPE, stderr=subprocess.PIPE, text=True, timeout=timeout)
     if p.returncode != 0:
         raise Undecided("model driver failed: %s" % p.stderr[-500:])
     out, cur = [], []
@@ -263,7 +264,7 @@ def _run(ctx, a):
     consts_changed, const_problems = regen_consts()
 
     # 2. build: models + driver first (needed for correspondence and search), then the theorems
-    ok_model, out_model = lake_build(["Afkak", "afkak_model"])
+    ok_model, out_model = lake_build(["model_" + c for c in mod.COMPONENTS])
     if not ok_model:
         # The model itself no longer builds: only Generated/Consts.lean can cause this.
         ctx.proof_broken = "model build failed: " + "; ".join(failing_theorems(out_model, pid)) + "\n" + out_model[-1500:]
